@@ -38,7 +38,34 @@ class C10(hc.PProp):
     expected_probes = ['hits_judged', 'responses_judged', 'fault.disk.eio', 'fault.disk.short']
     sim_limit_s = 3000
 
+    def plan_update_churn(self, rng, tier, index):
+        """entries refreshed by 304 (header update) under heavy slot reuse, hits served from the store rather than from local memory"""
+        kind = rng.choice(['rock', 'rock', 'shared'])
+        conf = {'cache': kind, 'cache_mem_mb': 1 if kind == 'shared' else rng.choice([0, 0, 1]), 'lines': []}
+        if kind == 'rock':
+            conf['rock_mb'] = rng.choice([1, 2]); conf['rock_slot'] = rng.choice([4096, 16384]); conf['max_obj_mem_kb'] = 0
+        plan = hc.std_plan(rng, conf, hostile=False)
+        plan['knobs'] = {'net.seg.max': [16384], 'clock.tick_us': [1, 20]}
+        nreval = rng.randint(2, 4); nfill = rng.randint(6, 14)
+        urls = [{'sizes': [rng.choice([9000, 20000, 40000, 60000])], 'framing': 'cl', 'cc': rng.choice(['max-age=1', 'no-cache', 'max-age=1, must-revalidate']), 'lm': True} for _ in range(nreval)]
+        urls += [{'sizes': [rng.choice([30000, 60000, 100000, 130000])], 'framing': rng.choice(['cl', 'chunked']), 'cc': 'max-age=100000', 'lm': True, 'bump_on_serve': True, 'nver': 12} for _ in range(nfill)]
+        plan['urls'] = urls
+        steps = []
+        rid = index * 1000
+        for k in range(rng.randint(25, 60)):
+            rid += 1
+            if rng.random() < 0.5:
+                steps.append({'id': rid, 'u': rng.randrange(nreval), 'wait': rng.choice([1500000, 2000000, 300000]), 'hdrs': []})
+            else:
+                steps.append({'id': rid, 'u': nreval + rng.randrange(nfill), 'wait': rng.choice([0, 1000, 100000]), 'hdrs': [('Cache-Control', 'no-cache')] if rng.random() < 0.5 else []})
+        plan['clients'] = [{'name': 'c0', 'start': 0, 'steps': steps}]
+        plan['disk_faults'] = []
+        plan['_lists'] = ['clients.0.steps']
+        return plan
+
     def plan(self, rng, tier, index):
+        if index % 4 == 3:
+            return self.plan_update_churn(rng, tier, index)
         plan = hc.std_plan(rng, cache_conf(rng), hostile=rng.random() < 0.5)
         plan['conf']['lines'].append('collapsed_forwarding %s' % rng.choice(['off', 'off', 'on']))
         nurl = rng.randint(4, 10)
@@ -116,5 +143,5 @@ class C10(hc.PProp):
                     V.append(Violation('C10:body-altered', 'request %s: partial body is not a prefix of version %d of url %d: %s' % (r.id, r.ver, r.u, hc.diff_desc(m.body, exp))))
         o.stats = stats
         o.nontrivial = stats['hits_judged'] > 0
-        o.sample = {'conf': plan['conf'], 'urls': [[u['sizes'], u['cc'], u['bumps']] for u in plan['urls']][:4], 'disk_faults': plan.get('disk_faults'),
+        o.sample = {'conf': plan['conf'], 'urls': [[u['sizes'], u.get('cc'), u.get('bumps')] for u in plan['urls']][:4], 'disk_faults': plan.get('disk_faults'),
                     'client0': [[s['wait'], s['u'], s['hdrs']] for s in plan['clients'][0]['steps']][:6]}
